@@ -43,6 +43,10 @@ def parseLit? (s : String) : Option Lit :=
   else if s.startsWith "i" then (parseInt? (s.drop 1).toString).map .int
   else (parseStr? s).map .str
 
+def chunk (n : Nat) : Nat → List Lit → List (List Lit)
+  | 0, _ => []
+  | k + 1, l => l.take n :: chunk n k (l.drop n)
+
 def parseLits? : Nat → List String → Option (List Lit × List String)
   | 0, ts => some ([], ts)
   | n + 1, t :: ts =>
@@ -109,6 +113,22 @@ def parseU : Nat → List String → Option (U × List String)
         match parseLits? k rest with
         | none => none
         | some (vs, rest1) => (parseU f rest1).map (fun (x, r) => (U.inOp false vs x, r))
+    | "tin", ar :: nr :: rest =>
+      match parseNat? ar, parseNat? nr with
+      | some a, some k =>
+        match parseLits? (a * k) rest with
+        | none => none
+        | some (vs, rest1) =>
+          (parseUs f a rest1).map (fun (xs, r) => (U.tupleIn false (chunk a k vs) xs, r))
+      | _, _ => none
+    | "tnotin", ar :: nr :: rest =>
+      match parseNat? ar, parseNat? nr with
+      | some a, some k =>
+        match parseLits? (a * k) rest with
+        | none => none
+        | some (vs, rest1) =>
+          (parseUs f a rest1).map (fun (xs, r) => (U.tupleIn true (chunk a k vs) xs, r))
+      | _, _ => none
     | "notin", n :: rest =>
       match parseNat? n with
       | none => none
